@@ -514,6 +514,9 @@ impl<'scope, 'data, P: Platform> ResolutionResources<'data, 'scope, P> {
             return;
         }
 
+        #[cfg(wild_verif)]
+        crate::verif::sched_point(31);
+
         let Some(definitions_out) = atomic_take.take() else {
             // Another thread just beat us to it.
             return;
@@ -802,6 +805,9 @@ fn process_object<'scope, 'data: 'scope, 'definitions, P: Platform>(
 ) {
     let file_id = work_item.file_id;
     let definitions_out = work_item.definitions_out;
+
+    #[cfg(wild_verif)]
+    crate::verif::sched_point(30);
 
     match &resources.symbol_db.groups[file_id.group()] {
         Group::Prelude(prelude) => {
